@@ -20,6 +20,13 @@ CHECKS = {
              'the digest each signature opcode actually computed and the per-signature accept/reject sequence of CHECKMULTISIG are compared as well; every corruption must be rejected with the error the active flags select.',
         note='trusted: ref/secp.py, ref/sighash.py, ref/verify.py (anchored on the six doc/txs chain pairs and BIP340 vector 0); Schnorr contexts are single-input (known finding for multi-input)',
         ref='5 C02'),
+    'C03': dict(
+        technique='runtime monitoring: scenario-matrix monitor comparing --tx/--txin sessions (native harness + real btcdeb binary) with an independent implementation of consensus input validation (ASan+UBSan build)',
+        text='Exploration over a scenario matrix with stable ids: 11 output types x ~10 satisfactions each (valid and invalid) x input position / funding output / explicit, implicit and wrong selection x flag modification; '
+             'pairs are synthesised and signed by the independent signer, the six doc/txs chain pairs are always included. The session (configure_tx_txin + setup + run to the end; one third also through the real binary) must give the verdict of '
+             'ref.verify.verify_input, select the right input/output/amount and refuse wrong selections.',
+        note='trusted: ref/verify.py + ref/sign.py (anchored on doc/txs); btcdeb verdict read leniently as the property words it; scenario-keyed known findings in known_findings.txt',
+        ref='5 C03'),
     'C04': dict(
         technique='runtime monitoring: relational (paired-run) monitor over step/rewind command histories, complete history trees (ASan+UBSan build)',
         text='Exploration with complete enumeration of the {step,rewind} history tree to depth 10 (quick) / 12 (thorough) for short scripts and random hovering walks for long ones: after every command the complete observable state '
